@@ -172,6 +172,9 @@ func xBuildSchema(cfg *xConfig) *xSchema {
 	enumT := &xType{kind: xtEnum, name: "E"}
 	subT := &xType{kind: xtObject, name: "Sub", fields: map[string]*xField{}}
 	subT.fields["c"] = &xField{name: "Sub.c", typ: intT, get: func(s interface{}) interface{} { return s.(*xSub).C }}
+	// Sub.v is an object (always null) while Item.v is a scalar: the same field name
+	// with different types on two object types (shared-fragment validation, C14)
+	subT.fields["v"] = &xField{name: "Sub.v", typ: subT, get: func(s interface{}) interface{} { return (*xSub)(nil) }}
 	aT := &xType{kind: xtObject, name: "A", fields: map[string]*xField{}}
 	aT.fields["x"] = &xField{name: "A.x", typ: intT, get: func(s interface{}) interface{} { return s.(*xA).X }}
 	bT := &xType{kind: xtObject, name: "B", fields: map[string]*xField{}}
